@@ -103,6 +103,14 @@ Section PopEquiv.
   Proof. unfold gen_DE_result, gen_merge, gen_getitem_mask, de_select. cbn [pf]. now rewrite de_mask_eq. Qed.
   Theorem SHADE_result_fits mx (trial parents : pop) : pf (gen_SHADE_result mx trial parents) = de_select mx (pf trial) (pf parents).
   Proof. unfold gen_SHADE_result, gen_merge, gen_getitem_mask, de_select. cbn [pf]. now rewrite de_mask_eq. Qed.
+  (* DE.run / SHADE.run as a whole: the trial population is what evaluate made of the crossover of the PARENTS with the mutation of the
+     parents; it is compared row by row with those same parents *)
+  Theorem DE_run_fits mutation crossover evaluate mx (parents : pop) :
+    pf (gen_DE_run mutation crossover evaluate mx parents) = de_select mx (pf (evaluate (crossover parents (mutation parents)))) (pf parents).
+  Proof. unfold gen_DE_run. apply DE_result_fits. Qed.
+  Theorem SHADE_run_fits mutation crossover evaluate mx (parents : pop) :
+    pf (gen_SHADE_run mutation crossover evaluate mx parents) = de_select mx (pf (evaluate (crossover parents (mutation parents)))) (pf parents).
+  Proof. unfold gen_SHADE_run. apply SHADE_result_fits. Qed.
   Lemma pick_aligned (m : list bool) : forall (gs : list G) (fs : list Z), length gs = length fs -> length (pick m gs) = length (pick m fs).
   Proof. induction m as [|b m IH]; intros [|g gs] [|f fs] L; cbn in *; try reflexivity; try discriminate. injection L as L. destruct b; cbn; [f_equal|]; now apply IH. Qed.
   Theorem DE_result_rows mx (trial parents : pop) : aligned trial ->
